@@ -1,8 +1,126 @@
-import Hidi
-namespace Hidi.Props.C04
-open Hidi
+/-
+  C04 — Transposition, channel arithmetic and state actions.
 
-/-- placeholder obligation replaced by the real theorems below as they are proved -/
-theorem init_not_dead (cfg : Config) : (Dev.init cfg).dead = false := rfl
+  * `C04_resolve`       : what `Spec.resolve` is — base note + 12·octave + semitone in unbounded integers, channel
+                          `(channel + offset) mod 16`, configured velocity, nothing outside 0..127;
+  * `C04_press`         : a press of a mapped key emits exactly the Note On of that pair (modulo the collision rule
+                          of C03) and nothing when out of range — the arithmetic of the device (`uint8` channel add,
+                          `int` transposition) agrees with the unbounded formula in every reachable state;
+  * `C04_unit_step`     : a single (unpaired) action moves its parameter by exactly one / saturates;
+  * `C04_pair_reset`    : completing an up/down pair resets that parameter and applies nothing else;
+  * `C04_bounds`        : channel stays in 0..15 (1–16), mapping inside the configured list, in every reachable state;
+  * `C04_init`          : the configured defaults are the initial state;
+  * `C04_monitor_*`     : the monitor evaluated on the implementation, on the model.
+
+  PARTIAL (`_partial`): octave and semitone are `int8` in the code.  `C04_unit_step_partial`, `C04_init_partial` and
+  `C04_monitor_nowrap` carry the hypothesis that the value stays strictly inside −128..127 / the defaults fit;
+  `C04_wrap_witness` machine-checks that the hypothesis is needed (127 + 1 = −128).
+-/
+import HidiProofs.KeyHistories
+import HidiProofs.Props.C03
+namespace Hidi.Props.C04
+open Hidi Hidi.Spec Hidi.EngineSim Hidi.KeyHist
+
+/-- on key-only histories the only monitor failures of the model are the int8 wrap-around ones -/
+theorem C04_monitor_partial (cfg : Config) (evs : List Ev) (disc : Bool)
+    (hacc : Accepted cfg = true) (hk : evs.all keyOnly = true) :
+    ∀ f ∈ failsOf "C04" (checkAll (modelTrace cfg evs disc)),
+      f.clause = "state-evolution" ∨ f.clause = "initial-state" := by
+  intro f hf
+  unfold failsOf at hf
+  exact (key_histories cfg evs disc hacc hk f (List.mem_filter.mp hf).1).2
+
+/-- with defaults that fit and octave / semitone strictly inside the int8 range: no failure at all -/
+theorem C04_monitor_nowrap (cfg : Config) (evs : List Ev) (disc : Bool)
+    (hacc : Accepted cfg = true) (hk : evs.all keyOnly = true) (hw : NoWrap cfg evs) :
+    checkAll (modelTrace cfg evs disc) = [] :=
+  key_histories_nowrap cfg evs disc hacc hk hw
+
+/-- the specification's note/channel formula, spelled out -/
+theorem C04_resolve (cfg : Config) (s : StObs) (vel : Nat) (sub : Sub) (code : Code) (m : Mapping) (k : Key)
+    (hm : cfg.maps[s.map]? = some m) (hk : alookup (sub, code) m.midi = some k) :
+    resolve cfg s vel sub code =
+      if (k.note : Int) + 12 * s.oct + s.semi < 0 ∨ (k.note : Int) + 12 * s.oct + s.semi > 127 then none
+      else some (((k.note : Int) + 12 * s.oct + s.semi).toNat, (s.ch + k.chOff) % 16, vel) := by
+  unfold resolve
+  simp only [hm, hk]
+
+/-- **press**: the device sounds exactly the resolved pair (first holder; see C03 for collisions) -/
+theorem C04_press {cfg : Config} {d : Dev} (hd : DInv cfg d)
+    (hcnt : ∀ ch n, d.count ch n = (holders d.noteTr (n, ch) : Int))
+    (sub : Sub) (code : Code) (hna : alookup code cfg.actions = none) (hsw : (kt d code 1).exitComplete = false) :
+    (d.handleKey sub code 1).2 =
+      match resolve cfg (StObs.ofDev d) (u8 cfg.vel) sub code with
+      | none => []
+      | some (n, ch, v) => C03.pressSpec cfg.mode (holders d.noteTr (n, ch)) ch n v :=
+  C03.C03_press hd hcnt sub code hna hsw
+
+/-- first holder of its pitch: exactly one Note On of the resolved pair, in every mode -/
+theorem C04_press_fresh {cfg : Config} {d : Dev} (hd : DInv cfg d)
+    (hcnt : ∀ ch n, d.count ch n = (holders d.noteTr (n, ch) : Int))
+    (sub : Sub) (code : Code) (hna : alookup code cfg.actions = none) (hsw : (kt d code 1).exitComplete = false)
+    {n ch v : Nat} (hr : resolve cfg (StObs.ofDev d) (u8 cfg.vel) sub code = some (n, ch, v))
+    (hfresh : holders d.noteTr (n, ch) = 0) :
+    (d.handleKey sub code 1).2 = [noteOnMsg ch n v] := by
+  rw [C04_press hd hcnt sub code hna hsw, hr]
+  simp only [C03.pressSpec, hfresh]
+  cases cfg.mode <;> rfl
+
+/-- **unit steps / saturation** (partial: no int8 wrap in the resulting state) -/
+theorem C04_unit_step_partial {cfg : Config} {d : Dev} (hd : DInv cfg d) (a : Action)
+    (hw : nowrap (d.invokePress a).1) :
+    stateKeyOf (StObs.ofDev (d.invokePress a).1) = actionEffect cfg (StObs.ofDev d) a :=
+  invokePress_state hd a hw
+
+/-- the hypothesis is needed: at octave 127 `octave_up` yields −128 (int8), not 128 -/
+theorem C04_wrap_witness :
+    ∃ d : Dev, d.octave = 127 ∧ (d.invokePress .octaveUp).1.octave = -128 :=
+  ⟨{ (Dev.init C03.exCfg) with octave := 127 }, rfl, by decide⟩
+
+/-- **pair reset**: when the tracked actions contain exactly one complete pair, `checkDoubleActions` resets that
+    parameter to neutral and changes nothing else of the state -/
+theorem C04_pair_reset {d : Dev} {p : Action × Action} (h : d.checkDouble.2 = true)
+    (hp : completePairs d.actTr = [p]) :
+    stateKeyOf (StObs.ofDev d.checkDouble.1) = resetEffect (StObs.ofDev d) p ∧ Frame d d.checkDouble.1 :=
+  ⟨checkDouble_one h hp, checkDouble_frame d⟩
+
+/-- ... and the press that completes the pair applies nothing of its own and is silent -/
+theorem C04_pair_press_suppressed (d : Dev) (a : Action) (h : (withAct d a).checkDouble.2 = true) :
+    actPress d a = ((withAct d a).checkDouble.1, []) := by
+  rw [actPress_eq, if_pos h]
+
+/-- **bounds**: channel in 0..15 and mapping inside the list in every reachable state -/
+theorem C04_bounds {cfg : Config} (hacc : Accepted cfg = true) {evs : List Ev} (hk : evs.all keyOnly = true) :
+    ((Dev.init cfg).run evs).1.channel < 16 ∧ ((Dev.init cfg).run evs).1.mapping < cfg.maps.length := by
+  have := C02.reachable_dinv hacc hk
+  exact ⟨this.ch, this.map⟩
+
+/-- **initial state** (partial: defaults that fit int8) -/
+theorem C04_init_partial (cfg : Config) (h1 : -128 ≤ cfg.defOct ∧ cfg.defOct ≤ 127)
+    (h2 : -128 ≤ cfg.defSemi ∧ cfg.defSemi ≤ 127) (h3 : 1 ≤ cfg.defCh ∧ cfg.defCh ≤ 16) :
+    (Dev.init cfg).octave = cfg.defOct ∧ (Dev.init cfg).semitone = cfg.defSemi ∧
+    ((Dev.init cfg).channel : Int) = cfg.defCh - 1 ∧ (Dev.init cfg).mapping = cfg.defMap ∧
+    (Dev.init cfg).velocity = u8 cfg.vel := by
+  refine ⟨?_, ?_, ?_, rfl, rfl⟩
+  · simp only [Dev.init, wrap8]; omega
+  · simp only [Dev.init, wrap8]; omega
+  · simp only [Dev.init, u8]; omega
+
+/-! ### non-vacuity -/
+
+def exCfg : Config :=
+  { maps := [{ name := "Piano", midi := [(("", 30), ⟨60, 3⟩)], analog := [], dz := [], defDz := [] }],
+    actions := [(59, .octaveUp), (60, .octaveDown), (61, .channelUp)], exitSeq := [], mode := .noRepeat,
+    defOct := 1, defSemi := -2, defCh := 15, defMap := 0, vel := 100, axes := [] }
+
+/-- octave 1, semitone −2, channel 15 (index 14) + offset 3 = channel index 1; after octave_up: 60+24−2 = 82 -/
+example : ((Dev.init exCfg).run [.key "" 30 1, .key "" 30 0, .key "" 59 1, .key "" 30 1]).2 =
+    [[noteOnMsg 1 70 100], [noteOffMsg 1 70], [], [noteOnMsg 1 82 100]] := by decide
+example : NoWrap exCfg [.key "" 59 1] := by
+  refine ⟨by decide, by decide, by decide, by decide, ?_⟩
+  intro st hst
+  simp [modelTrace, modelSteps] at hst
+  subst hst
+  decide
 
 end Hidi.Props.C04
